@@ -22,7 +22,7 @@ func hazardLits() []byte {
 			b = append(b, c)
 		}
 	}
-	return b
+	return append(b, 0xd7, 0xf7, 0xe9, 0xa7) // × ÷ é §
 }
 
 // wideSpec: grammars that stress the text generation: any literal, long rules with $10+, empty rules, all tag shapes, odd but legal names
